@@ -28,6 +28,8 @@
 (*   "MclqIncl"    size_liquid includes the 8-byte header: the parser      *)
 (*                 over-reads by 8 and fails when MCLQ ends the file       *)
 (*   "MtxfAlways"  MTXF is always written for WotLK+ (version marker)      *)
+(*   "BmeshNotMop" version detection ignores MBMH/MBBB/MBNV/MBMI: a MoP    *)
+(*                 tile with blend mesh but no MTXP loses the blend mesh   *)
 (* Since the fix commits 4e9fa43, e3ee833, 428fad3, b1275d8, 1531bd2 the   *)
 (* code has only "Pad8" and "MtxfAlways" (MC_AdtLayout.cfg); McinExcl,     *)
 (* MtxfToEof, RefsTriple, InjectMfbo, MclqIncl describe the repaired       *)
@@ -54,7 +56,7 @@ MhdrTag(nm) == CASE nm = "mcin" -> "MCIN" [] nm = "mtex" -> "MTEX" [] nm = "mmdx
                  [] nm = "mwmo" -> "MWMO" [] nm = "mwid" -> "MWID" [] nm = "mddf" -> "MDDF" [] nm = "modf" -> "MODF"
                  [] nm = "mfbo" -> "MFBO" [] nm = "mh2o" -> "MH2O" [] nm = "mtxf" -> "MTXF"
 \* byte positions of the MCNK header fields the walker reads (wowdev SMChunk; 128 bytes)
-McnkFields == << <<"nLayers", 12>>, <<"height", 20>>, <<"normal", 24>>, <<"layer", 28>>, <<"refs", 32>>,
+McnkFields == << <<"indexX", 4>>, <<"indexY", 8>>, <<"nLayers", 12>>, <<"nDoodadRefs", 16>>, <<"nMapObjRefs", 56>>, <<"height", 20>>, <<"normal", 24>>, <<"layer", 28>>, <<"refs", 32>>,
                  <<"alpha", 36>>, <<"sizeAlpha", 40>>, <<"shadow", 44>>, <<"sizeShadow", 48>>, <<"snd", 88>>,
                  <<"nSnd", 92>>, <<"liquid", 96>>, <<"sizeLiquid", 100>>, <<"mccv", 116>>, <<"mclv", 120>> >>
 McnkOfsNames == {"height", "normal", "layer", "refs", "alpha", "shadow", "snd", "liquid", "mccv", "mclv"}
@@ -67,7 +69,8 @@ MinVer(tag) == CASE tag = "MFBO" -> TBC [] tag \in {"MH2O", "MTXF"} -> WotLK [] 
                  [] tag \in {"MTXP", "MBMH", "MBBB", "MBNV", "MBMI"} -> MoP [] OTHER -> VanillaEarly
 MayCarry(ver, tag) == ver >= MinVer(tag)
 \* version detection from chunk presence (version.rs detect_from_chunks; top-level tags only)
-Detect(tags) == IF "MTXP" \in tags THEN MoP
+\* ("BmeshNotMop": blend-mesh chunks are not taken as a MoP marker -- the code before fixes/C14-blend-mesh-marks-mop.patch)
+Detect(tags) == IF "MTXP" \in tags \/ ("BmeshNotMop" \notin Deviations /\ tags \cap {"MBMH", "MBBB", "MBNV", "MBMI"} # {}) THEN MoP
                 ELSE IF "MAMP" \in tags \/ ("MCNK" \in tags /\ "MCIN" \notin tags) THEN Cataclysm
                 ELSE IF "MH2O" \in tags \/ "MTXF" \in tags THEN WotLK
                 ELSE IF "MFBO" \in tags THEN TBC
@@ -90,6 +93,24 @@ McinCountOk(fo)   == Len(fo.mcin) = 256 /\ Len(McnksOf(fo.top)) <= 256
 SubTiles(g)       == g.size >= McnkHdr /\ TilesRange(g.subs, HDR + McnkHdr, HDR + g.size)
 OfsPoints(g, nm)  == g.f[nm] = 0 \/ TagAt(g.subs, g.f[nm]) \in McnkOfsTags(nm)
 OfsComplete(g, nm) == (\E t \in McnkOfsTags(nm) : HasTag(g.subs, t)) => g.f[nm] # 0
+\* size / count fields of the MCNK header describe the sub-chunk their ofs_* twin points at:
+\*   sizeAlpha, sizeShadow = payload size of MCAL / MCSH;  sizeLiquid = MCLQ size including its 8-byte header
+\*   (client convention: 8 = "no liquid");  nLayers = |MCLY| / 16;  nSnd = |MCSE| / 28;  no sub-chunk => 0
+McnkSizeNames == {"sizeAlpha", "sizeShadow", "sizeLiquid", "nLayers", "nSnd"}
+SizeTwin(nm) == CASE nm = "sizeAlpha" -> "alpha" [] nm = "sizeShadow" -> "shadow" [] nm = "sizeLiquid" -> "liquid"
+                  [] nm = "nLayers" -> "layer" [] nm = "nSnd" -> "snd"
+SizeFieldOk(g, nm) ==
+    LET ofs == g.f[SizeTwin(nm)]   sz == SizeAt(g.subs, ofs) IN
+    IF ofs = 0 THEN g.f[nm] = 0
+    ELSE CASE nm \in {"sizeAlpha", "sizeShadow"} -> g.f[nm] = sz
+           [] nm = "sizeLiquid" -> g.f[nm] = sz + HDR
+           [] nm = "nLayers"    -> g.f[nm] * 16 = sz
+           [] nm = "nSnd"       -> g.f[nm] * 28 = sz
+\* diagnostic relations (the builder copies these header words from its input): reference counts vs MCRF size,
+\* index_x / index_y vs position in the 16 x 16 grid (MCIN order is row-major: idx - 1 = y * 16 + x)
+RefCountsOk(g) == g.f["refs"] = 0 \/ TagAt(g.subs, g.f["refs"]) # "MCRF"
+                  \/ (g.f["nDoodadRefs"] + g.f["nMapObjRefs"]) * 4 = SizeAt(g.subs, g.f["refs"])
+GridIndexOk(g) == \A q \in 1..Len(g.idxs) : g.idxs[q] - 1 = g.f["indexY"] * 16 + g.f["indexX"]
 GroupSizesOk(fo)  == LET ks == McnksOf(fo.top) IN
                      /\ \A gi \in 1..Len(fo.groups) : \A q \in 1..Len(fo.groups[gi].idxs) :
                             LET ix == fo.groups[gi].idxs[q] IN ix \in 1..Len(ks) /\ ks[ix].size = fo.groups[gi].size
@@ -144,7 +165,11 @@ avars == <<aver, aopts, ank, asubs, amtxf, apc, acur, ahdrs, atop, apos, amhdr, 
            afst, awtop, awsub, aparse, around, alens>>
 
 Put(fn, o, r) == [q \in DOMAIN fn \cup {o} |-> IF q = o THEN r ELSE fn[q]]
-ZeroOfs  == [nm \in McnkOfsNames |-> 0]
+ZeroOfs  == [nm \in McnkOfsNames \cup McnkSizeNames |-> 0]
+\* the size / count word write_mcnk_chunk stores next to ofs_* when it writes sub-chunk t
+SubSizeField(t) == CASE t = "MCLY" -> <<"nLayers", Sz("MCLY") \div 16>> [] t = "MCLQ" -> <<"sizeLiquid", Sz("MCLQ") + HDR>>
+                     [] t = "MCAL" -> <<"sizeAlpha", Sz("MCAL")>> [] t = "MCSH" -> <<"sizeShadow", Sz("MCSH")>>
+                     [] t = "MCSE" -> <<"nSnd", Sz("MCSE") \div 28>> [] OTHER -> <<"none", 0>>
 ZeroMhdr == [nm \in {"flags"} \cup MhdrOffsetNames |-> 0]
 NoParse  == [ver |-> -1, opts |-> {}, subs |-> {}, mtxf |-> 0]
 
@@ -204,7 +229,8 @@ OpenMcnk == /\ apc = "MCNK"
             /\ UNCHANGED <<aver, aopts, ank, asubs, amtxf, atop, apos, amhdr, amcin, aktab, afst, awtop, awsub, aparse, around, alens>>
 EmitSub(t) == /\ apc = t /\ t \in SubsOf
               /\ ahdrs' = Put(ahdrs, acur, [tag |-> t, size |-> Sz(t)])
-              /\ akofs' = IF akofs[SubOfsName(t)] = 0 THEN [akofs EXCEPT ![SubOfsName(t)] = acur - akstart] ELSE akofs
+              /\ akofs' = LET withOfs == IF akofs[SubOfsName(t)] = 0 THEN [akofs EXCEPT ![SubOfsName(t)] = acur - akstart] ELSE akofs
+                           IN IF SubSizeField(t)[1] = "none" THEN withOfs ELSE [withOfs EXCEPT ![SubSizeField(t)[1]] = SubSizeField(t)[2]]
               /\ acur' = acur + HDR + Sz(t)
               /\ apc' = NextSub(CHOOSE j \in 1..Len(SubOrder) : SubOrder[j] = t)
               /\ UNCHANGED <<aver, aopts, ank, asubs, amtxf, atop, apos, amhdr, amcin, akix, akstart, aktab, afst, awtop, awsub,
@@ -334,12 +360,13 @@ McinPointsAtMcnk  == Walked => \A j \in 1..NK : /\ McinOffOk(Observed, j)
                                                 /\ McinSizeDelta(Observed, j) = (IF Dev("McinExcl") /\ j <= Len(aktab) THEN -HDR ELSE 0)
 McnkOfsPointAtNamed == Walked => \A j \in 1..Len(Observed.groups) : \A nm \in McnkOfsNames :
                                      OfsPoints(Observed.groups[j], nm) /\ OfsComplete(Observed.groups[j], nm)
+McnkSizeFieldsConsistent == Walked => \A j \in 1..Len(Observed.groups) : \A nm \in McnkSizeNames : SizeFieldOk(Observed.groups[j], nm)
 \* a file of version v carries only chunks v may carry; detection never reports a later version than written
 VersionRuleHolds == Walked => VersionRule(Observed, aver) /\ Detect(TopTags) <= aver
 \* content kept by parse: the only top-level content a parse loses is a blend mesh without MTXP (detected < MoP),
 \* and an MTXF handed to a pre-WotLK builder (never written)
 OnlyNamedLoss == apc \in {"rebuild", "done"} =>
-    \A kd \in aopts \ aparse.opts : \/ (kd = "BMESH" /\ "MTXP" \notin aopts)
+    \A kd \in aopts \ aparse.opts : \/ (kd = "BMESH" /\ "MTXP" \notin aopts /\ Dev("BmeshNotMop"))
                                    \/ (kd = "MTXF" /\ aver < WotLK)
 \* repeated parse -> rebuild does not grow: exactly, without deviations; with them only for a named reason
 Growth(j) == alens[j + 1] - alens[j]
